@@ -341,9 +341,9 @@ Section Dispatch.
         apply refill_sound in Hin; [|rewrite E; exact W|rewrite E; exact OK].
         destruct Hin as [Hin|Hin]; [|exact Hin]. eapply RS; eassumption.
       - eapply RS; [exact K2|]. unfold rs in Hin. destruct codec; [eapply get_reg_reset; exact Hin | exact Hin]. }
+    destruct (crash_on_refill s); [exact I'|].
     destruct (reg_get t r') as [c|]; [|exact I'].
-    pose proof (EO _ c I') as H. destruct (enter (St (classes x0) ((k, r') :: rs)) c) as [x2 o]. cbn [fst] in H.
-    destruct o; exact H.
+    exact (EO _ c I').
   Qed.
 
   Lemma field_body_inv cl enter top codec k s t x :
@@ -352,8 +352,7 @@ Section Dispatch.
   Proof.
     intros W EO K OK I. unfold field_body.
     destruct (reg_get t (get_reg k (regs x))) as [c|]; [|apply refill_retry_inv; assumption].
-    pose proof (EO _ c I) as H. destruct (enter x c) as [x1 o]. cbn [fst] in H.
-    destruct o; try exact H. apply refill_retry_inv; assumption.
+    exact (EO _ c I).
   Qed.
 
   Lemma loop_body_inv cl enter : enter_ok cl enter -> forall vs x, inv cl x -> inv cl (fst (loop_body enter vs x)).
@@ -447,50 +446,31 @@ Section Dispatch.
   Definition plain_carriers (cl: list cls) (s: site) (t: tag) : Prop :=
     forall c, carries cl s c t -> config_site sites c = None.
 
-  (* the from_dict of a class that carries the tag does not itself leak a KeyError (see variant_keyerror_refuted) *)
-  Definition no_keyerror (cl: list cls) (s: site) (t: tag) (present: list nat) : Prop :=
-    forall c, carries cl s c t -> acc (nth c cl dummy_cls) present <> VKeyError.
-
   Lemma field_spec_of_leaf cl s t present c :
-    tag_unique cl s t -> carries cl s c t -> acc (nth c cl dummy_cls) present <> VKeyError ->
-    field_spec acc cl s t present (leaf acc cl c present).
+    tag_unique cl s t -> carries cl s c t -> field_spec acc cl s t present (leaf acc cl c present).
   Proof.
-    intros U C NK. unfold leaf, field_spec.
-    destruct (acc (nth c cl dummy_cls) present) eqn:V; [| |congruence].
-    - split; [|split; [|split; [|split; [|split; [|split; [|split]]]]]].
-      + intros c'. split.
-        * intros E. injection E as <-. split; [exact C | exact V].
-        * intros [C' _]. f_equal. apply U; assumption.
-      + intros c'. split; [discriminate|]. intros [C' V']. rewrite (U _ _ C' C) in V'. congruence.
-      + split; [discriminate|]. intros H. exfalso. exact (H c C).
-      + discriminate.
-      + discriminate.
-      + intros c' E. discriminate.
-      + intros cs E. discriminate.
-      + discriminate.
-    - split; [|split; [|split; [|split; [|split; [|split; [|split]]]]]].
-      + intros c'. split; [discriminate|]. intros [C' V']. rewrite (U _ _ C' C) in V'. congruence.
-      + intros c'. split.
-        * intros E. injection E as <-. split; [exact C | exact V].
-        * intros [C' _]. f_equal. apply U; assumption.
-      + split; [discriminate|]. intros H. exfalso. exact (H c C).
-      + discriminate.
-      + discriminate.
-      + intros c' E. discriminate.
-      + intros cs E. discriminate.
-      + discriminate.
+    intros U C. unfold leaf, field_spec.
+    assert (EQ: forall c', carries cl s c' t -> c' = c) by (intros c' C'; apply U; assumption).
+    destruct (acc (nth c cl dummy_cls) present) eqn:V;
+      (split; [|split; [|split; [|split; [|split; [|split; [|split; [|split]]]]]]]);
+      try discriminate;
+      try (intros c'; split; [intros E; first [discriminate | injection E as <-; split; [exact C | exact V]]
+                              | intros [C' V']; first [rewrite (EQ _ C') in V'; congruence | f_equal; symmetry; apply EQ; exact C']]);
+      try (split; [discriminate | intros H; exfalso; exact (H c C)]);
+      try (intros cs E; discriminate).
   Qed.
 
   Lemma field_spec_none cl s t present : (forall c, ~ carries cl s c t) -> field_spec acc cl s t present ONotFound.
   Proof.
-    intros NO. unfold field_spec. split; [|split; [|split; [|split; [|split; [|split; [|split]]]]]].
+    intros NO. unfold field_spec. split; [|split; [|split; [|split; [|split; [|split; [|split; [|split]]]]]]].
     - intros c. split; [discriminate|]. intros [C _]. exfalso. exact (NO c C).
     - intros c. split; [discriminate|]. intros [C _]. exfalso. exact (NO c C).
     - split; [intros _; exact NO | reflexivity].
     - discriminate.
     - discriminate.
-    - intros c E. discriminate.
+    - intros c. split; [discriminate|]. intros [C _]. exfalso. exact (NO c C).
     - intros cs E. discriminate.
+    - discriminate.
     - discriminate.
   Qed.
 
@@ -499,38 +479,32 @@ Section Dispatch.
     forall x1 c, config_site sites c = None -> enter x1 c = (x1, leaf acc (classes x1) c present).
 
   Lemma refill_retry_correct cl enter top codec k s t present x0 :
-    wf cl -> inv cl x0 -> key_site sites k = Some s -> site_ok s (length cl) = true ->
-    tag_unique cl s t -> plain_carriers cl s t -> no_keyerror cl s t present -> enter_leaf present enter ->
+    wf cl -> inv cl x0 -> key_site sites k = Some s -> site_ok s (length cl) = true -> crash_on_refill s = false ->
+    tag_unique cl s t -> plain_carriers cl s t -> enter_leaf present enter ->
     field_spec acc cl s t present (snd (refill_retry enter top codec k s t x0)).
   Proof.
-    intros W [E RS] K OK U P NK EL. unfold refill_retry.
+    intros W [E RS] K OK NC U P EL. unfold refill_retry. rewrite NC.
     set (r' := refill (classes x0) s (get_reg k (regs x0))).
     set (rs := if codec then reset_nested top (built (classes x0) s) (regs x0) else regs x0).
     destruct (reg_get t r') as [c|] eqn:G'.
     - assert (C: carries cl s c t).
       { apply reg_get_In in G'. unfold r' in G'. rewrite E in G'. apply refill_sound in G'; [|exact W|exact OK].
         destruct G' as [G'|G']; [|exact G']. rewrite <- E. eapply RS; eassumption. }
-      rewrite (EL _ c (P c C)). cbn [classes]. rewrite E.
-      pose proof (field_spec_of_leaf cl s t present c U C (NK c C)) as F.
-      unfold leaf in *. destruct (acc (nth c cl dummy_cls) present) eqn:V; cbn [snd]; try exact F.
-      exfalso. exact (NK c C V).
+      rewrite (EL _ c (P c C)). cbn [classes snd]. rewrite E. apply field_spec_of_leaf; assumption.
     - cbn [snd]. apply field_spec_none. intros c C.
       destruct (refill_complete _ _ (get_reg k (regs x0)) _ _ W C) as [c' E']. unfold r' in G'. rewrite E in G'. congruence.
   Qed.
 
   Lemma field_body_correct cl enter top codec k s t present x :
-    wf cl -> inv cl x -> key_site sites k = Some s -> site_ok s (length cl) = true ->
-    tag_unique cl s t -> plain_carriers cl s t -> no_keyerror cl s t present -> enter_leaf present enter ->
+    wf cl -> inv cl x -> key_site sites k = Some s -> site_ok s (length cl) = true -> crash_on_refill s = false ->
+    tag_unique cl s t -> plain_carriers cl s t -> enter_leaf present enter ->
     field_spec acc cl s t present (snd (field_body enter top codec k s t x)).
   Proof.
-    intros W I K OK U P NK EL. unfold field_body.
+    intros W I K OK NC U P EL. unfold field_body.
     destruct (reg_get t (get_reg k (regs x))) as [c|] eqn:G; [|apply refill_retry_correct; assumption].
     destruct I as [E RS].
     assert (C: carries cl s c t) by (rewrite <- E; eapply RS; [exact K | apply reg_get_In; exact G]).
-    rewrite (EL _ c (P c C)). rewrite E.
-    pose proof (field_spec_of_leaf cl s t present c U C (NK c C)) as F.
-    unfold leaf in *. destruct (acc (nth c cl dummy_cls) present) eqn:V; cbn [snd]; try exact F.
-    exfalso. exact (NK c C V).
+    rewrite (EL _ c (P c C)). cbn [snd]. rewrite E. apply field_spec_of_leaf; assumption.
   Qed.
 
   Lemma enter_with_leaf rec top codec present : enter_leaf present (enter_with acc sites rec top codec present).
@@ -540,46 +514,46 @@ Section Dispatch.
   Lemma decode1_field x i s inp t present :
     wf (classes x) -> reg_sound sites x ->
     nth_error sites i = Some s -> s_field s = true -> site_ok s (length (classes x)) = true ->
-    assoc (s_fid s) inp = Some (Hashable t) ->
-    tag_unique (classes x) s t -> plain_carriers (classes x) s t -> no_keyerror (classes x) s t present ->
+    crash_on_refill s = false -> assoc (s_fid s) inp = Some (Hashable t) ->
+    tag_unique (classes x) s t -> plain_carriers (classes x) s t ->
     field_spec acc (classes x) s t present (snd (decode1 acc sites x i inp present)).
   Proof.
-    intros W RS Hs Hf OK HT U P NK. unfold decode1. rewrite Hs. cbn [dispatcher]. rewrite OK. cbn [negb]. rewrite Hf. rewrite HT.
+    intros W RS Hs Hf OK NC HT U P. unfold decode1. rewrite Hs. cbn [dispatcher]. rewrite OK. cbn [negb]. rewrite Hf. rewrite HT.
     apply (field_body_correct (classes x));
-      [exact W | split; [reflexivity | exact RS] | exact Hs | exact OK | exact U | exact P | exact NK | apply enter_with_leaf].
+      [exact W | split; [reflexivity | exact RS] | exact Hs | exact OK | exact NC | exact U | exact P | apply enter_with_leaf].
   Qed.
 
   Theorem decode_field_correct pre i s inp t present :
     nth_error sites i = Some s -> s_field s = true -> site_ok s (length (defs pre)) = true ->
-    assoc (s_fid s) inp = Some (Hashable t) ->
-    tag_unique (defs pre) s t -> plain_carriers (defs pre) s t -> no_keyerror (defs pre) s t present ->
+    crash_on_refill s = false -> assoc (s_fid s) inp = Some (Hashable t) ->
+    tag_unique (defs pre) s t -> plain_carriers (defs pre) s t ->
     exists o, snd (step acc sites (final acc sites pre) (Decode i inp present)) = Some o
               /\ field_spec acc (defs pre) s t present o.
   Proof.
-    intros Hs Hf OK HT U P NK.
+    intros Hs Hf OK NC HT U P.
     pose proof (registry_invariant pre) as RS. pose proof (wf_defs pre) as W. pose proof (final_classes pre) as CL.
-    set (x := final acc sites pre) in *. rewrite <- CL in W, OK, U, P, NK |- *.
-    pose proof (decode1_field x i s inp t present W RS Hs Hf OK HT U P NK) as F.
+    set (x := final acc sites pre) in *. rewrite <- CL in W, OK, U, P |- *.
+    pose proof (decode1_field x i s inp t present W RS Hs Hf OK NC HT U P) as F.
     cbn [step]. destruct (decode1 acc sites x i inp present) as [x' o]. exists o. split; [reflexivity | exact F].
   Qed.
 
   (* a holder with several discriminated fields: every field is decided by its own site *)
   Definition entry_ok (cl: list cls) (e: nat * inkeys * list nat) : Prop :=
     let '(i, inp, present) := e in
-    exists s, nth_error sites i = Some s /\ s_field s = true /\ site_ok s (length cl) = true
+    exists s, nth_error sites i = Some s /\ s_field s = true /\ site_ok s (length cl) = true /\ crash_on_refill s = false
               /\ forall t, assoc (s_fid s) inp = Some (Hashable t) ->
-                   tag_unique cl s t /\ plain_carriers cl s t /\ no_keyerror cl s t present.
+                   tag_unique cl s t /\ plain_carriers cl s t.
 
   Lemma decode_seq_correct : forall l x done, wf (classes x) -> reg_sound sites x ->
     (forall e, In e l -> entry_ok (classes x) e) ->
     seq_spec acc (classes x) sites l done (snd (decode_seq acc sites x l done)).
   Proof.
     induction l as [|[[i inp] present] l IH]; intros x done W RS H; cbn [decode_seq]; [apply seq_nil|].
-    destruct (H _ (or_introl eq_refl)) as [s [Hs [Hf [OK HT]]]].
+    destruct (H _ (or_introl eq_refl)) as [s [Hs [Hf [OK [NC HT]]]]].
     pose proof (decode1_inv x i inp present W RS) as [E1 RS1].
     destruct (assoc (s_fid s) inp) as [[t|]|] eqn:A.
-    - destruct (HT t eq_refl) as [U [P NK]].
-      pose proof (decode1_field x i s inp t present W RS Hs Hf OK A U P NK) as F.
+    - destruct (HT t eq_refl) as [U P].
+      pose proof (decode1_field x i s inp t present W RS Hs Hf OK NC A U P) as F.
       destruct (decode1 acc sites x i inp present) as [x1 o]. cbn [fst snd] in *.
       destruct o; try (eapply seq_fail; [exact Hs | exact A | exact F | intros c' E; discriminate]).
       eapply seq_ok; [exact Hs | exact A | exact F|].
@@ -639,10 +613,10 @@ Section Dispatch.
   Lemma refill_retry_nm enter top codec k s t x0 :
     (forall x1 c, snd (enter x1 c) <> OMissing) -> snd (refill_retry enter top codec k s t x0) <> OMissing.
   Proof.
-    intros EN. unfold refill_retry. destruct (reg_get t _) as [c|]; [|discriminate].
+    intros EN. unfold refill_retry. destruct (crash_on_refill s); [discriminate|]. destruct (reg_get t _) as [c|]; [|discriminate].
     pose proof (EN (St (classes x0) ((k, refill (classes x0) s (get_reg k (regs x0)))
         :: (if codec then reset_nested top (built (classes x0) s) (regs x0) else regs x0))) c) as H.
-    destruct (enter _ c) as [x2 o]. cbn [snd] in *. destruct o; try exact H; discriminate.
+    exact H.
   Qed.
 
   Lemma loop_body_nm enter : forall vs x, snd (loop_body enter vs x) <> OMissing.
@@ -666,8 +640,7 @@ Section Dispatch.
     destruct (s_field s) eqn:F; [|apply loop_body_nm].
     destruct (assoc (s_fid s) inp) as [[t|]|] eqn:A; [|discriminate|exfalso; exact (OWN eq_refl eq_refl)].
     unfold field_body. destruct (reg_get t (get_reg k (regs x))) as [c|]; [|apply refill_retry_nm; exact EN].
-    pose proof (EN x c) as H. destruct (enter x c) as [x1 o]. cbn [snd] in *.
-    destruct o; try exact H; try discriminate. apply refill_retry_nm; exact EN.
+    exact (EN x c).
   Qed.
 
   Lemma decode1_not_missing x i inp present : keys_present inp -> snd (decode1 acc sites x i inp present) <> OMissing.
@@ -687,32 +660,32 @@ End Dispatch.
 Lemma field_spec_functional acc cl s t present o1 o2 :
   field_spec acc cl s t present o1 -> field_spec acc cl s t present o2 -> o1 = o2.
 Proof.
-  intros [I1 [R1 [N1 [M1 [B1 [K1 [Y1 D1]]]]]]] [I2 [R2 [N2 [M2 [B2 [K2 [Y2 D2]]]]]]].
-  destruct o1 as [c| | | |c|c|cs|].
+  intros [I1 [R1 [N1 [M1 [B1 [K1 [Y1 [D1 X1]]]]]]]] [I2 [R2 [N2 [M2 [B2 [K2 [Y2 [D2 X2]]]]]]]].
+  destruct o1 as [c| | | |c|c|cs| |].
   - symmetry. apply I2. apply I1. reflexivity.
   - exfalso. apply M1. reflexivity.
   - symmetry. apply N2. apply N1. reflexivity.
   - exfalso. apply B1. reflexivity.
   - symmetry. apply R2. apply R1. reflexivity.
-  - exfalso. exact (K1 c eq_refl).
+  - symmetry. apply K2. apply K1. reflexivity.
   - exfalso. exact (Y1 cs eq_refl).
   - exfalso. apply D1. reflexivity.
+  - exfalso. apply X1. reflexivity.
 Qed.
 
 (* same classes, same site settings, same tag, same other fields => same answer, whatever was decoded or created before *)
 Theorem history_independent acc sites1 sites2 pre1 pre2 i1 i2 s inp1 inp2 t present :
   nth_error sites1 i1 = Some s -> nth_error sites2 i2 = Some s -> s_field s = true ->
   assoc (s_fid s) inp1 = Some (Hashable t) -> assoc (s_fid s) inp2 = Some (Hashable t) ->
-  defs pre1 = defs pre2 -> site_ok s (length (defs pre1)) = true -> tag_unique (defs pre1) s t ->
+  defs pre1 = defs pre2 -> site_ok s (length (defs pre1)) = true -> crash_on_refill s = false -> tag_unique (defs pre1) s t ->
   plain_carriers sites1 (defs pre1) s t -> plain_carriers sites2 (defs pre1) s t ->
-  no_keyerror acc (defs pre1) s t present ->
   snd (step acc sites1 (final acc sites1 pre1) (Decode i1 inp1 present))
   = snd (step acc sites2 (final acc sites2 pre2) (Decode i2 inp2 present)).
 Proof.
-  intros H1 H2 Hf T1 T2 E OK U P1 P2 NK.
-  destruct (decode_field_correct acc sites1 pre1 i1 s inp1 t present H1 Hf OK T1 U P1 NK) as [o1 [E1 S1]].
-  rewrite E in OK, U, P2, NK.
-  destruct (decode_field_correct acc sites2 pre2 i2 s inp2 t present H2 Hf OK T2 U P2 NK) as [o2 [E2 S2]].
+  intros H1 H2 Hf T1 T2 E OK NC U P1 P2.
+  destruct (decode_field_correct acc sites1 pre1 i1 s inp1 t present H1 Hf OK NC T1 U P1) as [o1 [E1 S1]].
+  rewrite E in OK, U, P2.
+  destruct (decode_field_correct acc sites2 pre2 i2 s inp2 t present H2 Hf OK NC T2 U P2) as [o2 [E2 S2]].
   rewrite E in S1. rewrite E1, E2. f_equal. eapply field_spec_functional; eassumption.
 Qed.
 
